@@ -440,6 +440,9 @@ func (p *specParser) primary() Expr {
 	switch t.kind {
 	case "id":
 		switch t.text {
+		case "forall", "exists":
+			p.i--
+			return p.quant()
 		case "true":
 			return &EBool{true}
 		case "false":
